@@ -59,6 +59,15 @@ Templates ==
     E(Node("call", "", <<Id("f"), Bin("-", Node("un", "-", <<A>>), B), Id("c")>>)) }
 
 
+\* `return` outside a function is not JavaScript: such statement lists are used as function bodies only
+RECURSIVE HasReturn(_)
+HasReturn(s) ==
+  \/ s.k = "ret"
+  \/ s.k \in {"if", "while", "for", "blk"} /\ \E j \in 1..Len(s.c) : ~IsNilNode(s.c[j]) /\ IsStmtKind(s.c[j].k) /\ HasReturn(s.c[j])
+
+\* statement lists that may stand at the top level (no return outside a function)
+TopOK(ss) == \A j \in 1..Len(ss) : ~HasReturn(ss[j])
+
 \* all statement sequences of length n over Templates, as a set of tuples
 RECURSIVE StmtSeqs(_)
 StmtSeqs(n) == IF n = 0 THEN {<<>>} ELSE {Append(s, x) : s \in StmtSeqs(n - 1), x \in Templates}
